@@ -28,7 +28,8 @@ class Contract:
         self.captures = kw.pop('captures', {})       # for closures: captured variable types
         self.pure = kw.pop('pure', False)
         self.replay = kw.pop('replay', None)
-        self.at_exit = kw.pop('at_exit', None)       # callable(ex, st, entry, result)->[(name, goal)] extra obligations
+        self.at_exit = kw.pop('at_exit', None)
+        self.exit_lemmas = kw.pop('exit_lemmas', None)       # callable(ex, st, entry, result)->[(name, goal)] extra obligations
         self.note = kw.pop('note', '')
         self.self_class = kw.pop('self_class', None)
         self.inline_depth = kw.pop('inline_depth', 4)
